@@ -310,7 +310,7 @@ def unit_finish(U):
                 U.prove(base + ".tempfile#p%d" % p.index, "the temp file is created once and removed", [], z3.BoolVal(len(created) == 1 and unlinked == created), {}, replay=replay)
 
 
-def unit_route(U):
+def unit_route(U, prefix="C03"):
     """create_db picks the importer by the dialect's fmt / force_gff, default id_spec per format, custom keys forwarded"""
     for fmt, force_gff, custom in (("gtf", False, False), ("gtf", False, True), ("gtf", True, False), ("gff3", False, False)):
         it = Interp()
@@ -350,9 +350,24 @@ def unit_route(U):
                 else:
                     ok = c.name == "gff" and c.kw.get("id_spec") == "ID"
                 ok = ok and c.kw.get("checklines") == 0 and isinstance(c.kw.get("data"), IT._BaseIterator) and c.kw.get("dialect", {}).get("fmt") == fmt
-            U.prove("C03.create_db.route[%s,force_gff=%s,custom=%s]#p%d" % (fmt, force_gff, custom, p.index),
+            def replay(m, fmt=fmt, force_gff=force_gff, custom=custom):
+                if custom:
+                    return {"violates": False, "note": "custom keys: no native replay"}
+                if fmt == "gtf":
+                    text = 'c\ts\tgene\t1\t90\t.\t+\t.\tgene_id "G1";\nc\ts\ttranscript\t1\t90\t.\t+\t.\tgene_id "G1"; transcript_id "T1";\nc\ts\texon\t5\t20\t.\t+\t.\tgene_id "G1"; transcript_id "T1";\n'
+                    exp = ["exon_1", "gene_1", "transcript_1"] if force_gff else ["G1", "T1", "exon_1"]
+                else:
+                    text = "c\ts\tgene\t1\t90\t.\t+\t.\tID=G1\nc\ts\texon\t5\t20\t.\t+\t.\tParent=G1\n"
+                    exp = ["G1", "exon_1"]
+                import warnings
+                with warnings.catch_warnings():
+                    warnings.simplefilter("ignore")
+                    db = gffutils.create_db(text, ":memory:", from_string=True, force_gff=force_gff, disable_infer_genes=True, disable_infer_transcripts=True)
+                got = sorted(f.id for f in db.all_features())
+                return {"inputs": {"text": text, "force_gff": force_gff}, "expected": exp, "observed": got, "violates": got != exp}
+            U.prove("%s.create_db.route[%s,force_gff=%s,custom=%s]#p%d" % (prefix, fmt, force_gff, custom, p.index),
                     "the GTF importer is used iff the dialect's fmt is 'gtf' and not force_gff, with the default id_spec {gene: gene_id, transcript: transcript_id} (GFF3: 'ID') and the custom keys/subfeature forwarded",
-                    [], z3.BoolVal(bool(ok)), {})
+                    [], z3.BoolVal(bool(ok)), {}, replay=replay)
 
 
 def unit_driving_query(U):
